@@ -58,6 +58,8 @@ func Prepare20(f Family20, n int) (measured func(), ok bool) {
 		return func() { _, _ = parse(canonicalizer.Semantic) }, true
 	case "whatwgsort":
 		return func() { _, _ = parse(canonicalizer.WhatWgSortQuery) }, true
+	case "decoding":
+		return func() { _, _ = parse(profileDecoding) }, true
 	case "report":
 		return func() { _, _ = parse(parserR) }, true
 	}
@@ -116,6 +118,13 @@ func Prepare20(f Family20, n int) (measured func(), ok bool) {
 		}, true
 	case "sp-sort":
 		return func() { u.SearchParams().Sort() }, true
+	case "sp-iterate":
+		// a callback that edits every pair
+		return func() { u.SearchParams().Iterate(func(p *url.NameValuePair) { p.Value += "x" }) }, true
+	case "sp-set":
+		return func() { u.SearchParams().Set("k", "v") }, true
+	case "sp-delete":
+		return func() { u.SearchParams().Delete("k") }, true
 	case "clone":
 		return func() { _ = u.Clone().Href(false) }, true
 	case "resolve":
@@ -145,6 +154,9 @@ func Prepare20(f Family20, n int) (measured func(), ok bool) {
 	}
 	return nil, false
 }
+
+// profileDecoding: repeated percent-decoding alone (keeps the fragment, strict host parsing).
+var profileDecoding = canonicalizer.New(canonicalizer.WithRepeatedPercentDecoding())
 
 type Cost20 struct {
 	Bytes   uint64 `json:"bytes"`
@@ -324,6 +336,18 @@ var FixedFamilies20 = func() []Family20 {
 	add("query-text", "http://h/?", "a", "", "", append(all, "searchparams", "whatwgsort")...)
 	add("query-params", "http://h/?x=y", "&foo=bar", "", "", append(all, "searchparams", "sp-append", "sp-sort", "whatwgsort")...)
 	add("query-distinct-params", "http://h/?x=y", "&b=1&a=2", "", "", "searchparams", "sp-sort", "whatwgsort", "semantic")
+	// escapes nested n levels deep (%2525...2541): one level per decoding pass
+	add("nested-escape-path", "http://h/%", "25", "41", "", "parse", "gsb", "semantic", "decoding", "reparse")
+	add("nested-escape-query", "http://h/?a=%", "25", "41&b=%252542", "", "gsb", "semantic", "decoding", "searchparams")
+	add("nested-escape-query-name", "http://h/?%", "25", "41=1", "", "gsb", "semantic", "decoding")
+	add("nested-escape-fragment", "http://h/#%", "25", "41", "", "decoding", "gsb")
+	add("nested-escape-host", "http://%", "25", "61.com/", "", "gsb", "semantic")
+	add("nested-escape-partial", "http://h/%", "%32%35", "41", "", "gsb", "semantic", "decoding")
+	// parameters every one of which a decoding / sorting profile has to rewrite
+	add("query-params-escaped", "http://h/?x=y", "&k=%41", "", "", "gsb", "semantic", "whatwgsort", "searchparams", "sp-iterate")
+	add("query-params-plus", "http://h/?x=y", "&k=a+b", "", "", "gsb", "semantic", "whatwgsort", "searchparams", "sp-iterate")
+	add("query-params-nested", "http://h/?x=y", "&%256b=%2541", "", "", "gsb", "semantic")
+	add("query-params-same-name", "http://h/?k=0", "&k=1", "", "", "gsb", "semantic", "whatwgsort", "sp-sort", "sp-set", "sp-delete", "sp-iterate")
 	add("query-ampersands", "http://h/?", "&", "", "", "parse", "searchparams", "gsb", "whatwgsort")
 	add("query-equals", "http://h/?", "=", "", "", "parse", "searchparams", "gsb")
 	add("query-plus", "http://h/?", "+", "", "", "parse", "searchparams", "whatwgsort")
@@ -369,6 +393,9 @@ var FixedFamilies20 = func() []Family20 {
 		}
 	}
 	add2("down-then-up", "http://h", "/a", "", "/..", "", "", "parse", "gsb", "semantic")
+	add2("down-then-push-pop", "http://h", "/a", "", "/x/..", "", "", "parse", "gsb", "semantic")
+	add2("down-then-push-pop-nonspecial", "foo://h", "/a", "", "/x/..", "", "", "parse")
+	add2("down-then-push-pop-vs-base", "", "a/", "", "x/../", "", "http://h/b/c", "parse")
 	add2("down-then-up-file", "file://", "/a", "", "/..", "", "", "parse", "gsb")
 	add2("down-then-up-nonspecial", "foo://h", "/a", "", "/..", "", "", "parse")
 	add2("down-then-up-encoded", "http://h", "/a", "", "/%2e%2E", "", "", "parse", "gsb")
@@ -423,8 +450,8 @@ func Families20(tier string) []Family20 {
 	return FixedFamilies20
 }
 
-var c20Units = []string{"a", "/", "/a", "/.", "/..", "@", ":", "%", "%41", "%2e", "é", "\xff", "&a=b", "&", "=", "+", ".", "a.", "1.", "\\", "?", "#", " ", "\t", "[", "]", "0", "0x", "|", "C|/", "'", "\"", "<", "{", "^", ";", "~", "xn--", "%25", "\u00ad", "ß", "💩"}
-var c20Ops = []string{"parse", "parse", "gsb", "gsb", "semantic", "semantic", "href", "getters", "pathname", "searchparams", "clone", "whatwgsort", "reparse", "resolve", "report", "sp-sort", "set:search", "set:pathname", "set:username", "set:hash", "set:host", "set:hostname", "clear-hash", "clear-search", "small-setters"}
+var c20Units = []string{"25", "a", "/", "/a", "/.", "/..", "@", ":", "%", "%41", "%2e", "é", "\xff", "&a=b", "&", "=", "+", ".", "a.", "1.", "\\", "?", "#", " ", "\t", "[", "]", "0", "0x", "|", "C|/", "'", "\"", "<", "{", "^", ";", "~", "xn--", "%25", "\u00ad", "ß", "💩"}
+var c20Ops = []string{"parse", "parse", "gsb", "gsb", "semantic", "semantic", "href", "getters", "pathname", "searchparams", "clone", "whatwgsort", "reparse", "resolve", "report", "sp-sort", "set:search", "set:pathname", "set:username", "set:hash", "set:host", "set:hostname", "clear-hash", "clear-search", "small-setters", "sp-iterate", "sp-set", "sp-delete", "decoding"}
 var c20Templates = []string{"http://u:p@h:81/p/q?a=b&c=d#f", "foo://u@h/p?q#f", "foo:opaque?q#f", "file:///C:/p?q#f", "https://a.b.c/x/../y/./z?%41=%42#%43", "http://h", "a:", "//h/p", "/p?q", "?q", "#f", ""}
 
 // c20Slots: the repeated unit goes into one structural position ("{}") of a URL.
@@ -453,6 +480,9 @@ func Gen20(t *rapid.T) Family20 {
 		// a second repetition right after the first (optionally behind a delimiter)
 		f.Mid = B(gen.Pick(t, "mid", []string{"", "", "/", "?", "#", "@", ":", "."}))
 		f.Unit2 = B(gen.Pick(t, "unit2", c20Units))
+		if rapid.IntRange(0, 2).Draw(t, "unit2Atoms") == 0 {
+			f.Unit2 += B(gen.Pick(t, "unit2b", c20Units))
+		}
 	}
 	if rapid.IntRange(0, 4).Draw(t, "withBase") == 0 {
 		f.Base = B(gen.Pick(t, "base", []string{"http://h/b/c?d#e", "file:///C:/x/y", "foo://h/p/q", "http://h{N}", "foo:/a{N}"}))
